@@ -355,4 +355,57 @@ instance (F : Facts) (l : List MergeInput) : Decidable (Accepted F l) :=
 instance (S : Schema) : Decidable (FieldsNodup S) := by unfold FieldsNodup; infer_instance
 
 
+/-! ## where the entries of a merged map come from -/
+
+/-- the new root field list has distinct names when the base has -/
+theorem rootFold_nodup {n : String} : ∀ (l fs0 fs : List FieldDef), l.foldlM (rootStep E n) fs0 = .ok fs →
+    (fs0.map (·.name)).Nodup → (fs.map (·.name)).Nodup
+  | [], _, _, h, hn => by simp only [List.foldlM_nil] at h; cases h; exact hn
+  | x :: l, fs0, fs, h, hn => by
+    obtain ⟨s1, h1, h2⟩ := foldlM_cons_ok h
+    apply rootFold_nodup l s1 fs h2
+    rcases rootStep_cases h1 with ⟨rfl, _⟩ | ⟨rfl, _⟩ | ⟨rfl, _, hnone⟩
+    · exact hn
+    · exact hn
+    · rw [List.map_append, List.nodup_append]
+      refine ⟨hn, by simp, ?_⟩
+      intro a ha b hb
+      simp only [List.map_cons, List.map_nil, List.mem_singleton] at hb
+      subst hb
+      obtain ⟨y, hy, hya⟩ := List.mem_map.mp ha
+      exact hya ▸ fieldNamed_none hnone y hy
+
+/-- every entry of the result is an entry of `a`, an entry of `b`, or `mergeDef` of the entry of
+    `a` and the entry of `b` of one name (keys of `b` distinct) -/
+theorem mergeTypes_provenance {as bs : Schema} : ∀ (b a r : List TypeDef), mergeTypes E a b as bs = .ok r →
+    (b.map (·.name)).Nodup →
+    ∀ d ∈ r, d ∈ a ∨ d ∈ b ∨ ∃ vb ∈ b, ∃ va, lookup a vb.name = some va ∧ mergeDef E as bs va vb = .ok (some d)
+  | [], a, r, h, _ => by
+    simp only [mergeTypes, List.foldlM_nil] at h; cases h
+    intro d hd; exact Or.inl hd
+  | v :: b, a, r, h, hn => by
+    simp only [List.map_cons, List.nodup_cons] at hn
+    obtain ⟨res1, h1, h2⟩ := foldlM_cons_ok (f := mergeOne E as bs) h
+    intro d hd
+    rcases mergeTypes_provenance b res1 r h2 hn.2 d hd with hd1 | hdb | ⟨vb, hvb, va, hl, hm⟩
+    · rcases mergeOne_cases h1 with ⟨_, rfl⟩ | ⟨_, _, rfl⟩ | ⟨_, va, hl, hcase⟩
+      · exact Or.inl hd1
+      · rcases List.mem_append.mp hd1 with h' | h'
+        · exact Or.inl h'
+        · simp only [List.mem_singleton] at h'; exact Or.inr (Or.inl (h' ▸ List.mem_cons_self))
+      · rcases hcase with ⟨_, rfl⟩ | ⟨d', hm, rfl⟩
+        · exact Or.inl hd1
+        · rcases mem_setType hd1 with rfl | h'
+          · exact Or.inr (Or.inr ⟨v, List.mem_cons_self, va, hl, hm⟩)
+          · exact Or.inl h'
+    · exact Or.inr (Or.inl (List.mem_cons_of_mem _ hdb))
+    · have hne : v.name ≠ vb.name := fun he => hn.1 (he ▸ List.mem_map_of_mem hvb)
+      rw [mergeOne_lookup_ne h1 hne] at hl
+      exact Or.inr (Or.inr ⟨vb, List.mem_cons_of_mem _ hvb, va, hl, hm⟩)
+
+/-- `mergeDef` does not look at `as`, `bs` (the interface check compares a list with itself) -/
+theorem mergeDef_schemas_irrelevant {as bs as' bs' : Schema} {va vb : TypeDef} (hn : va.name = vb.name)
+    (h : ∃ od, mergeDef E as bs va vb = .ok od) : ∃ od, mergeDef E as' bs' va vb = .ok od := by
+  rw [mergeDef_ok_iff hn] at h ⊢; exact h
+
 end PebblesVerif.Merge
